@@ -1238,6 +1238,10 @@ class Parser:
                 f"Error encountered by YAML parser in {self.current_file}"
             ) from e
 
+        # An empty file (or one with comments only) loads as None: it defines nothing
+        if data is None:
+            data = {}
+
         if data.get("compiler_options") is not None:
             for name, value in data["compiler_options"].items():
                 self.handle_compiler_options(name, value)
@@ -1254,6 +1258,10 @@ class Parser:
             raise YAMLSyntaxError(
                 f"Error encountered by YAML parser in {self.current_file}"
             ) from e
+
+        # An empty file (or one with comments only) loads as None: it defines nothing
+        if data is None:
+            data = {}
 
         valid_sections = (
             "metadata",
